@@ -235,7 +235,7 @@ func genHostileFrame(t *rapid.T) (frame []byte, kind string) {
 		case 3:
 			nv = uint32(rapid.IntRange(0, int(old)).Draw(t, "lenless"))
 		case 4:
-			nv = rapid.SampledFrom([]uint32{0, 1, 127, 128, 255, 16383, 16384, 65535, 2097151, 268435455}).Draw(t, "lenconst")
+			nv = rapid.SampledFrom([]uint32{0, 1, 127, 128, 255, 16383, 16384, 65532, 65533, 65534, 65535, 2097151, 268435455}).Draw(t, "lenconst")
 		default:
 			nv = rapid.Uint32().Draw(t, "lenany")
 		}
